@@ -87,6 +87,9 @@ SPECIAL = {
     'arrayIndexOf': lambda rnd: rnd.choice([[[1000, 300, 1000, 7], rnd.choice([1000, 300, 7, 8]), rnd.choice([0, 1, 2])],
                                             [[10 ** 9 + 1, 10 ** 9, 7], 10 ** 9, 0], [[2 ** 40, 2 ** 40 + 1], 2 ** 40 + 1]]),
     'arrayLastIndexOf': lambda rnd: [[1000, 300, 1000, 7], rnd.choice([1000, 300, 7, 8])],
+    # digit counts around the point where 10 ** digits leaves the exactly representable integers (2 ** 53 ~ 9e15, 1e22) and the doubles
+    'mathRound': lambda rnd: [rnd.choice([2.5, 1.005, 12345.678, 0, -0.5, 1e21]), rnd.choice([0, 1, 2, 15, 16, 22, 23, 24, 30, 100, 308, 309])],
+    'numberToFixed': lambda rnd: [rnd.choice([2.5, 1.005, 12345.678, 0, -0.5]), rnd.choice([0, 1, 2, 15, 16, 22, 23, 24, 30, 100]), rnd.choice([True, False])],
     'objectGet': lambda rnd: [{'a': 1000, 'b': 2}, rnd.choice(['a', 'b', 'c']), 1000],
     'mathMax': lambda rnd: [rnd.choice([1000, 300, 2, 10 ** 9, 10 ** 9 + 1]) for _ in range(rnd.randint(1, 4))],
     'mathMin': lambda rnd: [rnd.choice([1000, 300, 2, 10 ** 9, 10 ** 9 + 1]) for _ in range(rnd.randint(1, 4))],
